@@ -302,8 +302,18 @@ def check_loo(case):
     a, keep, n = build(case)
     method = case['method']
     rd = make_rdms(a, case['groups'])
-    lo, up = lib(boot_noise_ceiling, rd, method=method, rdm_descriptor='grp',
-                 on_error='violation', sig='ceiling:%s:raises' % method)
+    singleton = len(set(map(repr, case['groups']))) == len(case['groups'])
+    if singleton and len(a) % 2 == 0 and len(a) >= 2:
+        # every RDM its own group through the default descriptor, on a stack put together from
+        # separately created objects (one per subject file) by the library
+        from rsatoolbox.rdm import concat
+        parts = [RDMs(a[i:i + 1].copy()) for i in range(len(a))]
+        merged = lib(concat, parts, on_error='reject')
+        lo, up = lib(boot_noise_ceiling, merged, method=method, on_error='violation',
+                     sig='ceiling:%s:raises' % method)
+    else:
+        lo, up = lib(boot_noise_ceiling, rd, method=method, rdm_descriptor='grp',
+                     on_error='violation', sig='ceiling:%s:raises' % method)
     groups = cref.groups_of(case['groups'])
     try:
         want_lo, want_up = cref.ceilings(np.nan_to_num(a), groups, method, n=n, keep=keep)
